@@ -352,29 +352,38 @@ def run(ck):
 
 META = {
     "category": "proof",
-    "text": ("Semantic preservation is PROVED in Lean for fragment F1 of the language - functions `T f(params) { return E; }` over "
-             "all 12 integer types with every arithmetic, bitwise, shift, comparison, logical (short-circuit), conditional, cast "
+    "text": ("Semantic preservation is PROVED in Lean for two fragments of the language.  F1 - functions `T f(params) { return E; }` "
+             "over all 12 integer types with every arithmetic, bitwise, shift, comparison, logical (short-circuit), conditional, cast "
              "and unary-minus operator, any nesting depth, any number of parameters (Props/C01.lean: lower_correct, "
-             "lower_correct_in, lower_correct_exact): whenever the C semantics (Model/CSem.lean over Spec/CInt.lean, `none` = "
-             "undefined behaviour) gives the body a value v on arguments rho, the IL that the model of qbe.c's lowering "
-             "(Model/Lower.lean: emitFunc = funcexpr/convert/funcload/funcstore/funcjnz/phi construction) emits returns a "
-             "representation of v under the formal IL semantics (Spec/Qbe.lean) for every sufficiently large fuel, without "
-             "trapping, getting stuck, or producing output - for all such functions, all in-range arguments, both char "
-             "conventions, any block-counter start.  The theorem is tied to THIS compiler on every run: for generated F1 "
-             "functions (typed trees as expr.c builds them) the text cproc-qbe emits must be byte-identical to the model's, the "
-             "C semantics must agree with gcc and clang on sample arguments, and the real IL executed under Spec/Qbe must "
-             "return evalC's value.  Outside F1 (floats, pointers, aggregates, bit-fields, statements, loops, switch, goto, "
-             "calls, initialisers, VLAs) nothing is proved yet: there the check is translation validation - every program of "
-             "the typed generator gen/cprog.py is compiled by the freshly built cproc-qbe, its real IL is executed under the "
-             "formal IL semantics and the trace/exit status compared with gcc and clang (UBSan/ASan-clean, agreeing), for the "
-             "char conventions of all three targets."),
+             "lower_correct_in, lower_correct_exact).  F2 - functions whose body is built from declarations of integer block-scope "
+             "objects with and without initialiser, assignment and compound assignment, ++/-- (not on _Bool objects), expression "
+             "statements, compound statements, if, if-else, while, do-while, for (any clause missing, declaration in the first), "
+             "break, continue and return anywhere (no code after a jump statement in the same block), over F1's expressions on "
+             "parameters and locals (lower2_correct, lower2_correct_in, lower2_correct_exact).  Statement: whenever the C semantics "
+             "(Model/CSem.lean, Model/CSem2.lean over Spec/CInt.lean: big-step execution with fuel over a store in which "
+             "uninitialised objects are indeterminate; `none` = undefined behaviour) makes the call return v on arguments rho, the IL "
+             "that the model of the lowering (Model/Lower.lean, Model/Lower2.lean: transliteration of qbe.c funcexpr/convert/funcload/"
+             "funcstore/funcalloc/funcjnz/funclabel/funcjmp/funcret/emitfunc, stmt.c stmt, decl.c funcinit path) emits returns a "
+             "representation of v under the formal IL semantics (Spec/Qbe.lean) for every sufficiently large fuel, without trapping, "
+             "getting stuck, touching memory outside its own slots or producing output - for all such functions (unbounded size "
+             "and nesting, loops included), all in-range arguments, both char conventions, any block-counter start.  The theorems "
+             "are tied to THIS compiler on every run: for generated F1 and F2 functions (typed trees as expr.c/stmt.c/decl.c build "
+             "them) the text cproc-qbe emits must be byte-identical to the model's, the C semantics must agree with gcc and clang on "
+             "sample arguments, and the real IL executed under Spec/Qbe must return the C semantics' value.  Outside F1/F2 (floats, "
+             "pointers, aggregates, bit-fields, switch, goto, calls, non-scalar initialisers, VLAs, unreachable code after a jump, "
+             "++/-- on _Bool) nothing is proved: there the check is translation validation - every program of the typed generator "
+             "gen/cprog.py is compiled by the freshly built cproc-qbe, its real IL is executed under the formal IL semantics and the "
+             "trace/exit status compared with gcc and clang (UBSan/ASan-clean, agreeing), for the char conventions of all three "
+             "targets."),
     "design_ref": "DESIGN.md section 4, C01 and section 12.2",
     "note": ("Trusted: Lean kernel + propext/Classical.choice/Quot.sound; Spec/Qbe.lean as the reading of the QBE IL reference "
              "(QBE's own code generation is outside the sandbox); Model/CSem.lean + Spec/CInt.lean as the reading of C11 6.5 "
              "(validated against gcc/clang on every run); gen/c01frag.py's transliteration of expr.c's typing, which the "
              "byte-for-byte text comparison with the real compiler checks on every generated function; gcc/clang at -O0 as "
-             "the oracle outside F1.  Partial: the proof covers F1 only; the rest of the property's language is validated per "
-             "generated program, not proved."),
-    "technique": "Lean 4 proof of semantic preservation (simulation, induction on expressions) for the integer-expression fragment "
-                 "+ text-level correspondence with cproc-qbe + translation validation of generated programs under a formal IL semantics",
+             "the oracle outside F1/F2.  Partial: the proofs cover F1 and F2; the rest of the property's language is validated "
+             "per generated program, not proved."),
+    "technique": "Lean 4 proofs of semantic preservation (simulation: induction on expressions; for statements induction on the fuel of "
+                 "a big-step C semantics, with loops, break/continue and pending jumps) for the integer expression and statement "
+                 "fragments + text-level correspondence with cproc-qbe + translation validation of generated programs under a formal "
+                 "IL semantics",
 }
